@@ -811,6 +811,10 @@ Definition case : Type :=
    * list Z * list (list Z) * list (list Z) * list (list Z)
    * list h5obj)%type.
 
+(* argument types of the run_* entry points *)
+Definition derive_arg : Type := (case * list (list Z) * list (list Z))%type.
+Definition copy_arg : Type := (case * Z)%type.
+
 Definition file_of_case (c : case) : file :=
   let '(sc, feats, traces, unknown, plain, chnames, lambdas, powers, polys,
         basins, tree) := c in
@@ -822,7 +826,7 @@ Definition run_flat (c : case) : list (list Z) :=
 
 (* [[exit status; 0; 0]] followed by the violations; the second component is
    the number of alerts reported by the implementation *)
-Definition run_flat_x (p : case * Z) : list (list Z) :=
+Definition run_flat_x (p : copy_arg) : list (list Z) :=
   let f := file_of_case (fst p) in
   [verify_exit f (snd p); 0; 0] :: violations_flat f.
 
@@ -858,8 +862,10 @@ Definition file_flat (f : file) : list (list (list Z)) :=
 Definition ofile_flat (o : option file) : list (list (list Z)) :=
   match o with Some f => file_flat f | None => [] end.
 
-(* (case of the source, [[keep]; [keep_trace]; [n]], extra features) *)
-Definition run_derive_flat (p : case * list (list Z) * list (list Z))
+(* (case of the source, [[keep]; [keep_trace]; [n]], extra features); the
+   harness annotates every rendered argument with its type, so that empty
+   list literals are never left to inference *)
+Definition run_derive_flat (p : derive_arg)
   : list (list (list Z)) :=
   let '(c, par, extra) := p in
   let keep := nth 0 par [] in
@@ -868,7 +874,7 @@ Definition run_derive_flat (p : case * list (list Z) * list (list Z))
   ofile_flat (derive_model (file_of_case c) keep kt (map mk_feat extra) n).
 
 (* dclab-repack / dclab-compress of any (also corrupted) file *)
-Definition run_copy_flat (p : case * Z) : list (list (list Z)) :=
+Definition run_copy_flat (p : copy_arg) : list (list (list Z)) :=
   let f := file_of_case (fst p) in
   if snd p =? 0 then file_flat (copy_model f)
   else ofile_flat (compress_model f).
@@ -881,12 +887,12 @@ Definition run_rectify_flat (c : case) : list (list (list Z)) :=
 (* the hypotheses of the theorems about written and derived files, evaluated
    on the generated inputs: [complete_input pre n] for the abstraction of the
    writer's file just before it closes *)
-Definition run_hyp_writer_flat (p : case * Z) : list (list (list Z)) :=
+Definition run_hyp_writer_flat (p : copy_arg) : list (list (list Z)) :=
   [[[bz (complete_input (file_of_case (fst p)) (snd p))]]].
 
 (* the guards of derived_output_clean on a derived file's source and
    request: [[keeps_channels]; [all added features are extra_ok]] *)
-Definition run_hyp_derive_flat (p : case * list (list Z) * list (list Z))
+Definition run_hyp_derive_flat (p : derive_arg)
   : list (list (list Z)) :=
   let '(c, par, extra) := p in
   let keep := nth 0 par [] in
